@@ -1,0 +1,26 @@
+//go:build verif
+
+// Package verifhook provides schedule points for the external verification
+// harness. This file is only built with the "verif" build tag.
+package verifhook
+
+import "sync/atomic"
+
+var hook atomic.Pointer[func(name string)]
+
+// Set installs f as the schedule point callback (nil removes it). The callback
+// runs on the goroutine that reached the point and may block it.
+func Set(f func(name string)) {
+	if f == nil {
+		hook.Store(nil)
+		return
+	}
+	hook.Store(&f)
+}
+
+// Point marks a schedule point.
+func Point(name string) {
+	if f := hook.Load(); f != nil {
+		(*f)(name)
+	}
+}
